@@ -58,10 +58,15 @@ from pbt.harness import Task, ok, violation, discard, xt_call, XitorchRaised
 PID = "C18"
 RULE = ("names: functional x built-in name x random case pattern (>=1 upper-case letter) x {as method, as bck_options.method} x order 1/2, "
         "compared bit-for-bit with the lower-case name; unknown: functional x non-member string (random letters, member+char, member-char, "
-        "member of another table, empty) x {method, bck_options.method}; custom: functional x {closed-form callable, callable wrapping each "
-        "built-in} x fwd option dict (0-3 keys, free and real option names, JSON values) x bck option dict (incl. a recording callable as "
-        "backward method) x order 1/2. Tiny problems (n<=4) with closed-form solutions. Non-trivial = the run differentiated at least one "
-        "leaf with a non-zero reference/first gradient (names, custom) or the rejection was observed (unknown); distinct by canonical case.")
+        "member with an inserted char, member of another table, empty) x {method, bck_options.method}; custom: functional x {closed-form "
+        "callable, callable wrapping each built-in} x callable flavour (function, object, unhashable object, partial, bound method) x fwd "
+        "option dict (0-3 keys, free and real option names, JSON values) x bck option dict (incl. a recording callable as backward method) "
+        "x order 1/2. The finite part of the quantifier is also enumerated on every run (tasks *_all): every functional x every built-in "
+        "name x {UPPER, Capitalised, aLtErNaTiNg} x order 1/2 (+ every backward method name), every functional x {empty, name+'x', "
+        "name minus last char, name with '_' inserted}, every functional x {closed, each wrappable built-in} x order 1/2 x {no bck_options, "
+        "recording backward callable}, with problem data re-drawn from VERIF_SEED. Tiny problems (n<=5) with closed-form solutions. "
+        "Non-trivial = the run differentiated at least one leaf with a non-zero reference/first gradient (names, custom) or the rejection "
+        "was observed (unknown); distinct by canonical case.")
 ASSUMPTIONS = [
     "float64; problems are well conditioned by construction (kappa<=3 for linear systems, spectral gaps>=0.5, contraction<=0.6)",
     "custom callable signature = the functional's own signature without bck_options/method (doc/getstart/custom_method.rst); for mcquad the "
@@ -566,7 +571,6 @@ class InterpProblem:
         return [obj(self.xq)]
 
     def ysorted(self):
-        inv = torch.argsort(self.perm)
         # x = xs[perm]  =>  sorted position k holds x index argsort(x)[k]
         order = torch.argsort(self.x)
         return self.y[order]
@@ -929,10 +933,6 @@ def run_unknown(case):
         res = evaluate(prob, case, method, fwd, bck, 1, case["seed"] + 1)
     except XitorchRaised as e:
         etype = e.kind.split(":")[1].split("@")[0]
-        site = e.kind.split("@")[1].split(":")[0] if "@" in e.kind else "?"
-        if where == "bck" and site == "forward":
-            # must not be rejected before the backward needs it? either is fine: rejected is rejected
-            pass
         if etype not in ("RuntimeError", "ValueError", "TypeError", "KeyError", "NotImplementedError", "AssertionError"):
             return violation("unknown_name_crashes:" + etype, "%s with unknown name %r failed with an unrelated error: %s" % (fn, name, e.detail[:500]), labels)
         return ok(labels + ["raised=" + etype], nontrivial=True)
